@@ -74,6 +74,7 @@ func (e *env) newSession(h hist) *session {
 	}
 	if h.External {
 		s.store = wn.NewMemStorage()
+		s.store.FailUp = h.UploadFail
 		cfg := &vgirpc.ExternalLocationConfig{Storage: s.store, ExternalizeThresholdBytes: 96, HTTPClient: s.store.Client(), MaxRetries: 1, RetryDelay: time.Millisecond}
 		if h.ExtZstd {
 			cfg.Compression = &vgirpc.Compression{Algorithm: "zstd", Level: 1}
@@ -257,9 +258,9 @@ func (s *session) do(c call) (o observed) {
 	case hdrFamily:
 		q.Params = keep(wn.HdrParamsBatch(c.HdrMode, c.Args.Tag))
 	case c.Class == "unary:describe":
-	case c.Class == "unary:rows0":
+	case c.Class == "unary:rows0" || c.Class == "stream:rows0":
 		q.Params = keep(svc.ParamsBatchRows(c.Script, c.Args, 0))
-	case c.Class == "unary:rows2":
+	case c.Class == "unary:rows2" || c.Class == "stream:rows2":
 		q.Params = keep(svc.ParamsBatchRows(c.Script, c.Args, 2))
 	case c.PVariant != "":
 		q.Params = keep(svc.ParamsBatchVariant(c.Script, c.Args, c.PVariant))
@@ -433,6 +434,15 @@ func (e *env) observe(s *session, c call, o observed, mark int64) {
 		case c.Class == "stream:castable":
 			rep.class("observed." + tag + ".cast-accepted")
 		}
+	}
+	if s.h.UploadFail && (c.Class == "unary:big" || c.Class == "stream:big") && !o.extPointer {
+		rep.class("observed." + tag + ".upload-failed-result-inline")
+	}
+	if strings.HasPrefix(c.Class, "stream:rows") {
+		rep.class("observed." + tag + ".stream-request-with-" + c.Class[len("stream:"):])
+	}
+	if !c.Script.Header && c.Script.InitAct == svc.ActOK && len(c.Script.ID) > 0 && (c.Method == "p_hdr" || c.Method == "x_hdr" || c.Method == "d_hdr") && !o.failed {
+		rep.class("observed." + tag + ".header-method-without-header")
 	}
 	if c.ExtKind == "request" && s.store != nil && !o.failed && tag == "http" {
 		rep.class("observed.http.external-request-resolved")
